@@ -23,10 +23,14 @@ for d in sorted(glob.glob(os.path.join(root, 'seeded', '*'))):
         continue
     res = {}
     try:
-        for i in ids:
+        from concurrent.futures import ThreadPoolExecutor
+        def run(i):
             c = sh(os.path.join(root, 'check'), i, 'quick', env=dict(os.environ, VERIF_SKIP_LEANCHECKER='1'), cwd=root)
             v = [l for l in c.stdout.splitlines() if l.startswith('VIOLATION')]
-            res[i] = {'rc': c.returncode, 'violation': (v[0].split(' replay=')[0] + (' no-failing-input-found' if v[0].endswith('no-failing-input-found') else '')) if v else None}
+            return i, {'rc': c.returncode, 'violation': (v[0].split(' replay=')[0] + (' no-failing-input-found' if v[0].endswith('no-failing-input-found') else '')) if v else None}
+        with ThreadPoolExecutor(max_workers=5) as ex:
+            for i, r_ in ex.map(run, ids):
+                res[i] = r_
     finally:
         sh('git', '-C', '/repo', 'checkout', '--', '.')
         subprocess.run(['git', '-C', '/repo', 'clean', '-fdq', 'fxpmath'])
